@@ -144,6 +144,9 @@ class Tree:
                     env.log("td-reg", f"gen:{path}")
                     yield
                     env.log("td", f"gen:{path}")
+                    # (the teardown part awaits: under a cancelled teardown this is where the cancellation lands - the callbacks
+                    # registered earlier still run)
+                    await anyio.lowlevel.checkpoint()
             else:
                 async def start(self) -> None:
                     await tree.run_steps(path, "start", node["start"])
